@@ -25,6 +25,12 @@ RULE = (
     "{TrafficLightLabel with uuid_matching_first in {False, True}, AutowareLabel}; one sweep with the FP label among "
     "the three; seeded random sets up to 9+9 with 5 labels, 4 camera frames (incl. CAM_TRAFFIC_LIGHT), both tasks, "
     "random target-label lists, mixed label families; a malformed stream (null uuids, duplicate uuids per camera). "
+    "per-label bucketing: (a) the aligned-uuid sweep over 3 labels, (n_est, n_gt) <= 3+3, repeated for every PROPER "
+    "non-empty target subset (both label families, both uuid-first settings); (b) kind 'divide': result lists built "
+    "directly (fresh estimate / ground-truth objects per result) -- EVERY ordered list of <= 4 results over 3 labels "
+    "(estimate label x {ground-truth label, no ground truth} = 12 result types, so every listing order of every "
+    "multiset) x all 7 non-empty target subsets, plus seeded lists of <= 8 results over 5 labels with unpaired "
+    "ground truths and shuffled target lists. "
     "non-trivial = both lists non-empty; distinct = distinct canonical case"
 )
 THEOREMS = [
@@ -41,7 +47,8 @@ THEOREMS = [
 TRUSTED = [
     "DynamicObject2D has no __eq__/__hash__: `in` and list.remove work by identity; the model uses the harness id",
     "divide_objects / divide_objects_to_num (objects_filter.py) are used by the harness to build the per-label buckets "
-    "exactly as MetricsScoreManager does; they are inputs of the model, not modelled here",
+    "exactly as PerceptionFrameResult.evaluate_frame / get_scene_result do; the Lean model takes the buckets as inputs, "
+    "the ORACLE recomputes them from the result list (est label, else ground-truth label) and the ground truths",
 ]
 ASSUMPTIONS = [
     "objects are ROI-less DynamicObject2D, distinct Python objects; uuids non-null and unique per side and camera "
@@ -71,6 +78,7 @@ def _mods():
         from perception_eval.evaluation.metrics.classification.classification_metrics_score import (
             ClassificationMetricsScore,
         )
+        from perception_eval.evaluation.result.object_result import DynamicObjectWithPerceptionResult
         from perception_eval.evaluation.result.object_result import get_object_results
 
         _C.update(locals())
@@ -127,17 +135,20 @@ def _layouts(ne, ng, rng, n_random):
     return res
 
 
-def _sweep(rng, nmax, labels, fam, ufs, n_random, cap=None):
+def _sweep(rng, nmax, labels, fam, ufs, n_random, cap=None, target_sets=None, n_layouts=None):
     cases = []
     for ne in range(nmax + 1):
         for ng in range(nmax + 1):
             lays = _layouts(ne, ng, rng, n_random if ne + ng > 0 else 0)
+            if n_layouts is not None:
+                lays = lays[:n_layouts]
             for (ce, ue, cg, ug) in lays:
                 for labs in itertools.product(labels, repeat=ne + ng):
                     ests = [[labs[i], ce[i], ue[i]] for i in range(ne)]
                     gts = [[labs[ne + j], cg[j], ug[j]] for j in range(ng)]
                     for uf in ufs:
-                        cases.append(_case(fam, uf, ests, gts, targets=labels, split=(ne + ng) % 3))
+                        for k, tg in enumerate(target_sets or [labels]):
+                            cases.append(_case(fam, uf, ests, gts, targets=tg, split=(ne + ng + k) % 3))
     if cap is not None and len(cases) > cap:
         # keep every size; thin out uniformly (thorough tier budget)
         step = len(cases) / cap
@@ -205,6 +216,44 @@ def _random_case(rng, nmax, malformed=False):
                  domain=domain)
 
 
+def _subsets(labels, proper=False):
+    out = [list(c) for k in range(1, len(labels) + 1) for c in itertools.combinations(labels, k)]
+    return [t for t in out if len(t) < len(labels)] if proper else out
+
+
+def _dcase(fam, rs, targets, split=0, xg=(), metrics=True):
+    """kind 'divide': the result list is built directly, in this order. rs = [[est label, gt label | None], ...];
+    xg = labels of additional ground truths that no estimate is paired with; metrics=False: only the buckets
+    (divide_objects) are produced and checked, not the scores computed from them."""
+    return {"kind": "divide", "fam": fam, "rs": [list(r) for r in rs], "targets": list(targets), "split": split,
+            "xg": list(xg), "metrics": bool(metrics)}
+
+
+def _divide_sweep(labels, fam, nmax, metrics_upto=None):
+    """every ordered result list of 1..nmax results over `labels` x every non-empty target subset"""
+    types = [[e, g] for e in labels for g in list(labels) + [None]]
+    tsets = _subsets(labels)
+    cases = []
+    for n in range(1, nmax + 1):
+        for rs in itertools.product(types, repeat=n):
+            for k, tg in enumerate(tsets):
+                cases.append(_dcase(fam, rs, tg, split=(n + k) % 3, metrics=metrics_upto is None or n <= metrics_upto))
+    return cases
+
+
+def _random_divide(rng, nmax):
+    fam = rng.choice(["aw", "tl"])
+    pool = AW if fam == "aw" else TL
+    labs = rng.sample(pool[:4], rng.randint(2, 4))
+    if rng.random() < 0.15:
+        labs.append("false_positive")
+    n = rng.randint(1, nmax)
+    rs = [[rng.choice(labs), rng.choice(labs + [None])] for _ in range(n)]
+    tg = rng.sample(pool[:4], rng.randint(1, 3)) if rng.random() < 0.85 else list(pool)
+    xg = [rng.choice(labs) for _ in range(rng.choice([0, 0, 1, 2, 3]))]
+    return _dcase(fam, rs, tg, split=rng.randint(0, 3), xg=xg)
+
+
 def corpus():
     g, r, y = "green", "red", "yellow"
     f, b, t = CAMS[0], CAMS[1], CAMS[2]
@@ -239,6 +288,17 @@ def corpus():
     # mixed families: dispatch on the first estimate; labels of different enums never agree
     cs.append(_case("tl", False, [["unknown", f, "a"]], [["unknown", f, "a"]], targets=["unknown"], fg="aw"))
     cs.append(_case("aw", False, [["unknown", f, "a"]], [["unknown", f, "a"]], targets=["unknown"], fg="tl"))
+    # per-label buckets with labels outside the target list: an estimate whose own label is no target is scored under
+    # its ground truth's label -- also when an EARLIER result (bus, bus) was filed under a non-target key
+    cs.append(_case("aw", False, [["bus", f, "a"], ["bus", f, "b"], ["car", f, "c"]],
+                    [["bus", f, "a"], ["car", f, "b"], ["car", f, "c"]], targets=["car"]))
+    cs.append(_case("tl", True, [[r, f, "a"], [r, f, "b"], [g, f, "c"]],
+                    [[r, f, "a"], [g, f, "b"], [g, f, "c"]], targets=[g]))
+    cs.append(_dcase("aw", [["bus", "bus"], ["bus", "car"], ["car", "car"]], ["car"]))
+    cs.append(_dcase("aw", [["bus", "pedestrian"], ["pedestrian", "car"], ["car", "car"]], ["car"], split=2))
+    cs.append(_dcase("tl", [[r, y], [y, g], [r, None], [g, r], [y, y]], [g], xg=[g, r]))
+    cs.append(_dcase("aw", [["bus", None], ["car", None]], ["car"]))
+    cs.append(_dcase("aw", [["car", "car"]], ["bus", "car", "pedestrian"], xg=["bus"]))
     return cs
 
 
@@ -249,14 +309,31 @@ def generate(rng, tier):
         cases += _sweep(rng, 3, AW[:3], "aw", (False,), 1)
         cases += _sweep(rng, 2, ["green", "red", "false_positive"], "tl", (False, True), 1)
         cases += _sweep(rng, 2, ["car", "bus", "false_positive"], "aw", (True,), 0)
-        n_rand, n_mal, nmax = 4000, 800, 9
+        cases += _sweep(rng, 3, AW[:3], "aw", (False,), 0, n_layouts=1,
+                        target_sets=[["car"], ["bus", "pedestrian"], ["pedestrian", "car"]])
+        cases += _sweep(rng, 2, AW[:3], "aw", (False,), 0, n_layouts=1, target_sets=[["bus"], ["pedestrian"], ["car", "bus"]])
+        cases += _sweep(rng, 2, TL[:3], "tl", (False, True), 0, target_sets=_subsets(TL[:3], True), n_layouts=1)
+        cases += _divide_sweep(AW[:3], "aw", 4, metrics_upto=3)  # size 4: buckets only (scores sampled below)
+        cases += _divide_sweep(TL[:3], "tl", 2)
+        types = [[e, g] for e in AW[:3] for g in AW[:3] + [None]]
+        for _ in range(6000):
+            cases.append(_dcase("aw", [rng.choice(types) for _ in range(4)], rng.choice(_subsets(AW[:3])),
+                                split=rng.randint(0, 3)))
+        n_rand, n_mal, nmax, n_div = 4000, 800, 9, 3000
     else:
         cases += _sweep(rng, 3, TL[:3], "tl", (False, True), 4)
         cases += _sweep(rng, 4, TL[:3], "tl", (False, True), 2, cap=170000)
         cases += _sweep(rng, 4, AW[:3], "aw", (False,), 1, cap=60000)
         cases += _sweep(rng, 3, ["green", "red", "false_positive"], "tl", (False, True), 2)
         cases += _sweep(rng, 3, ["car", "bus", "false_positive"], "aw", (True,), 1)
-        n_rand, n_mal, nmax = 30000, 5000, 9
+        cases += _sweep(rng, 3, AW[:3], "aw", (False,), 1, target_sets=_subsets(AW[:3], True), n_layouts=2)
+        cases += _sweep(rng, 3, TL[:3], "tl", (False, True), 0, target_sets=_subsets(TL[:3], True), n_layouts=1)
+        cases += _divide_sweep(AW[:3], "aw", 4)
+        cases += _divide_sweep(TL[:3], "tl", 4)
+        cases += _divide_sweep(["car", "bus", "false_positive"], "aw", 3)
+        n_rand, n_mal, nmax, n_div = 30000, 5000, 9, 30000
+    for _ in range(n_div):
+        cases.append(_random_divide(rng, 8))
     for _ in range(n_rand):
         cases.append(_random_case(rng, nmax))
     for _ in range(n_mal):
@@ -266,10 +343,13 @@ def generate(rng, tier):
 
 # ----------------------------------------------------------------------------- implementation
 
+_INF = float("inf")
+
+
 def _fl(x):
-    if isinstance(x, float) and math.isinf(x):
+    if x == _INF:
         return "inf"
-    if isinstance(x, float) and math.isnan(x):
+    if x != x:
         return "nan"
     return float(x)
 
@@ -300,7 +380,100 @@ def _split(lst, k):
     return [lst[:cut], lst[cut:]]
 
 
+def _lkey(label):
+    """enum member -> [family, value]"""
+    return ["tl" if type(label).__name__ == "TrafficLightLabel" else "aw", label.value]
+
+
+def _per_label(M, res, gts, targets, split, rid, out, separate=True, metrics=True):
+    """what PerceptionFrameResult.evaluate_frame does for classification: divide_objects, divide_objects_to_num,
+    ClassificationMetricsScore; records the complete dict returned by divide_objects and whether the call left its
+    inputs alone and answers the same when repeated"""
+    res_before, tg_before = list(res), list(targets)
+    d = M["divide_objects"](res, targets)
+    out["divide"] = [[_lkey(k), [rid(r) for r in v]] for k, v in d.items()]
+    out["inputs_unchanged"] = (len(res) == len(res_before) and all(a is b for a, b in zip(res, res_before))
+                               and len(targets) == len(tg_before) and all(a is b for a, b in zip(targets, tg_before)))
+    d2 = M["divide_objects"](res, targets)
+    out["repeat_same"] = (list(d2.keys()) == list(d.keys())
+                          and all(len(d2[k]) == len(d[k]) and all(a is b for a, b in zip(d2[k], d[k])) for k in d))
+    if not metrics:
+        return
+    n = M["divide_objects_to_num"](gts, targets)
+    out["buckets"] = []
+    od = {}
+    for t in targets:
+        frames = _split(d[t], split)
+        od[t] = frames
+        b = {"label": t.value, "frames": [[rid(r) for r in f] for f in frames], "num_gt": n[t]}
+        if separate:  # a ClassificationAccuracy of its own, next to the one ClassificationMetricsScore builds
+            b["acc"] = _acc(M["ClassificationAccuracy"](frames, n[t], [t]))
+        out["buckets"].append(b)
+    sc = M["ClassificationMetricsScore"](od, n, targets)
+    out["score_accs"] = [_acc(a) for a in sc.accuracies]
+    if not separate:
+        for b, a in zip(out["buckets"], out["score_accs"]):
+            b["acc"] = a
+    out["score_labels"] = [[x.value for x in a.target_labels] for a in sc.accuracies]
+    out["summary"] = [_fl(x) for x in sc._summarize()]
+
+
+def _div_specs(case):
+    """kind 'divide' -> (E, G, link): specs in the shape of the 'pair' kind; link[i] = index in G of est i's partner"""
+    cam = CAMS[0]
+    E, G, link = [], [], []
+    for i, (e, g) in enumerate(case["rs"]):
+        E.append([e, cam, "u%d" % i])
+        if g is None:
+            link.append(None)
+        else:
+            link.append(len(G))
+            G.append([g, cam, "u%d" % i])
+    for k, g in enumerate(case.get("xg", [])):
+        G.append([g, cam, "x%d" % k])
+    return E, G, link
+
+
+def _run_divide(case):
+    M = _mods()
+    fam = case["fam"]
+    tab, mk, Label, Res = M["lab"][fam], M["DynamicObject2D"], M["Label"], M["DynamicObjectWithPerceptionResult"]
+    cam = M["frame"][CAMS[0]]
+    try:
+        # fresh objects per result, in the layout of _div_specs: est i <-> gt "u<i>", then the unpaired gts
+        eid, gid, gts, res = {}, {}, [], []
+        for i, (e, g) in enumerate(case["rs"]):
+            est = mk(100, cam, 1.0, Label(tab[e], e), None, "u%d" % i)
+            eid[id(est)] = i
+            gt = None
+            if g is not None:
+                gt = mk(100, cam, 1.0, Label(tab[g], g), None, "u%d" % i)
+                gid[id(gt)] = len(gts)
+                gts.append(gt)
+            res.append(Res(est, gt))
+        for k, g in enumerate(case.get("xg", [])):
+            gt = mk(100, cam, 1.0, Label(tab[g], g), None, "x%d" % k)
+            gid[id(gt)] = len(gts)
+            gts.append(gt)
+        targets = [tab[t] for t in case["targets"]]
+
+        def rid(r):
+            g = r.ground_truth_object
+            return [eid[id(r.estimated_object)], None if g is None else gid[id(g)]]
+
+        metrics = case.get("metrics", True)
+        out = {"pairs": [rid(r) for r in res]}
+        if metrics:
+            out["correct"] = [bool(r.is_label_correct) for r in res]
+        _per_label(M, res, gts, targets, case["split"], rid, out, separate=False, metrics=metrics)
+        return out
+    except Exception as e:
+        return {"err": type(e).__name__}
+
+
 def run_impl(case):
+    if case.get("kind") == "divide":
+        return _run_divide(case)
     M = _mods()
     ests, gts = _build(case)
     eid = {id(o): i for i, o in enumerate(ests)}
@@ -325,19 +498,7 @@ def run_impl(case):
         nested = M["ClassificationAccuracy"](_split(res, max(case["split"], 1)), len(gts), targets or [])
         out["whole_nested"] = _acc(nested)
         if targets is not None:
-            d = M["divide_objects"](res, targets)
-            n = M["divide_objects_to_num"](gts, targets)
-            out["buckets"] = []
-            od = {}
-            for t in targets:
-                frames = _split(d[t], case["split"])
-                od[t] = frames
-                a = M["ClassificationAccuracy"](frames, n[t], [t])
-                out["buckets"].append({"label": t.value, "frames": [[rid(r) for r in f] for f in frames],
-                                       "num_gt": n[t], "acc": _acc(a)})
-            sc = M["ClassificationMetricsScore"](od, n, targets)
-            out["score_accs"] = [_acc(a) for a in sc.accuracies]
-            out["summary"] = [_fl(x) for x in sc._summarize()]
+            _per_label(M, res, gts, targets, case["split"], rid, out)
         return out
     except Exception as e:
         return {"err": type(e).__name__}
@@ -350,6 +511,8 @@ def _jobj(i, spec, fam):
 
 
 def model_requests(case, out):
+    if case.get("kind") == "divide":
+        return []  # the oracle is the reference for this kind (the Lean model takes the buckets as given)
     req = {"op": "case", "fpv": case["task"].startswith("fp_validation"), "uf": case["uf"],
            "ests": [_jobj(i, s, case["fe"]) for i, s in enumerate(case["ests"])],
            "gts": [_jobj(i, s, case["fg"]) for i, s in enumerate(case["gts"])],
@@ -463,7 +626,69 @@ def _chk_acc(name, a, tp, n, ngt, unit):
     return None
 
 
+def _expected_buckets(case, E, G, pairs):
+    """THE per-label bucketing, from the property's reading of the result list R = pairs (in order) and targets T:
+    bucket(L) = [r in R, in order, with est label == L, or est label no target and r has a ground truth labelled L].
+    Labels are (family, value): members of different label enums are never equal."""
+    T = [(case["fe"], t) for t in case["targets"]]
+    Tset = set(T)
+    exp = {t: [] for t in T}
+    for i, j in pairs:
+        le = _lab(case, "e", E[i])
+        if le in Tset:
+            exp[le].append([i, j])
+        elif j is not None and _lab(case, "g", G[j]) in Tset:
+            exp[_lab(case, "g", G[j])].append([i, j])
+    return T, exp
+
+
+def _chk_buckets(case, E, G, out):
+    """buckets handed to the metrics == independent bucketing; non-target keys hold no result of a target bucket;
+    inputs untouched; same answer when asked again"""
+    if not out.get("inputs_unchanged", True):
+        return "divide_objects changed its input list / target list"
+    if not out.get("repeat_same", True):
+        return "divide_objects gave a different answer for the same arguments the second time"
+    T, exp = _expected_buckets(case, E, G, out["pairs"])
+    got = {tuple(k): v for k, v in out["divide"]}
+    if len(got) != len(out["divide"]):
+        return "divide_objects returned equal keys twice"
+    in_target = set()
+    for t in T:
+        if t not in got:
+            return f"no bucket for target label {t[1]}"
+        if got[t] != exp[t]:
+            return (f"bucket[{t[1]}] = {got[t]} but the results with estimate label {t[1]} (or a non-target estimate "
+                    f"label and ground truth {t[1]}) are {exp[t]}; targets {case['targets']}")
+        in_target.update(tuple(r) for r in exp[t])
+    for k, v in got.items():
+        if k in exp:
+            continue
+        for r in v:
+            if tuple(r) in in_target:
+                return f"result {r} belongs to a target bucket but is filed under the non-target key {k[1]}"
+    # what the metrics receive (frames) is the bucket, cut into frames
+    for t, b in zip(T, out.get("buckets", [])):
+        flat = [x for f in b["frames"] for x in f]
+        if b["label"] != t[1] or flat != exp[t]:
+            return f"metrics input for {t[1]} is {flat}, expected {exp[t]}"
+        ngt = sum(1 for s in G if _lab(case, "g", s) == t)
+        if b["num_gt"] != ngt:
+            return f"num_ground_truth[{t[1]}] = {b['num_gt']} but {ngt} ground truths carry that label"
+    if out.get("score_labels") is not None and out["score_labels"] != [[t[1]] for t in T]:
+        return f"ClassificationMetricsScore.accuracies are for {out['score_labels']}, targets {case['targets']}"
+    return None
+
+
 def oracle(case, out):
+    if case.get("kind") == "divide":
+        E, G, link = _div_specs(case)
+        c2 = {"fe": case["fam"], "fg": case["fam"], "targets": case["targets"]}
+        if "err" in out:
+            return f"raised {out['err']} on a well-formed result list"
+        if out["pairs"] != [[i, link[i]] for i in range(len(E))]:
+            return "harness: result list not as built"
+        return _oracle_scores(c2, E, G, out, whole=False)
     if not case.get("domain", True):
         return None
     E, G = case["ests"], case["gts"]
@@ -508,35 +733,50 @@ def oracle(case, out):
         best = _max_equal_pairs(ke, kg) if len(E) <= 6 and len(G) <= 6 else _class_sum(ke, kg)
         if got != best:
             return f"{got} equally-labelled pairs, but a one-to-one same-camera pairing with {best} exists"
+    return _oracle_scores(case, E, G, out)
+
+
+def _oracle_scores(case, E, G, out, whole=True):
     # ---- scores: counting definitions over the results, recomputed in Fractions
+    pairs = out["pairs"]
+    le = [_lab(case, "e", s) for s in E]
+    lg = [_lab(case, "g", s) for s in G]
     fp_gt = any(s[0] == "false_positive" for s in G)
 
     def correct(i, j):
         return j is not None and (G[j][0] == "false_positive" or le[i] == lg[j])
 
     flags = [correct(i, j) for i, j in pairs]
-    if flags != out["correct"]:
+    if "correct" in out and flags != out["correct"]:
         return f"is_label_correct {out['correct']} expected {flags}"
     tp = sum(flags)
-    d = _chk_acc("whole", out["whole"], tp, len(pairs), len(G), True)
-    if d:
-        return d
+    if whole:
+        d = _chk_acc("whole", out["whole"], tp, len(pairs), len(G), True)
+        if d:
+            return d
     all_right = len(G) > 0 and len(pairs) == len(G) and all(j is not None and le[i] == lg[j] for i, j in pairs)
-    if all_right:
+    if all_right and whole:
         for k in ("accuracy", "precision", "recall", "f1"):
             if out["whole"][k] != 1.0:
                 return f"everything paired and right but whole.{k} = {out['whole'][k]}"
+    if "divide" in out:
+        d = _chk_buckets(case, E, G, out)
+        if d:
+            return d
     if "buckets" in out:
+        T, exp = _expected_buckets(case, E, G, pairs)
         S = [0, 0, 0, 0]
-        for b in out["buckets"]:
-            rs = [x for f in b["frames"] for x in f]
+        for t, b, sa in zip(T, out["buckets"], out["score_accs"]):
+            rs = exp[t]  # the independent bucket, not the one the code produced
             btp = sum(1 for i, j in rs if correct(i, j))
-            ngt = sum(1 for j in range(len(G)) if G[j][0] == b["label"] and case["fg"] == case["fe"])
-            if ngt != b["num_gt"]:
-                ngt = b["num_gt"]  # divide_objects_to_num is not under test here
-            d = _chk_acc("bucket[" + b["label"] + "]", b["acc"], btp, len(rs), ngt, not fp_gt)
+            ngt = sum(1 for x in lg if x == t)
+            d = _chk_acc("score.accuracies[" + t[1] + "]", sa, btp, len(rs), ngt, not fp_gt)
+            if not d and b["acc"] is not sa:
+                d = _chk_acc("bucket[" + t[1] + "]", b["acc"], btp, len(rs), ngt, not fp_gt)
             if d:
                 return d
+            if sa["num_gt"] != ngt or b["acc"]["num_gt"] != ngt:
+                return f"num_ground_truth of the {t[1]} accuracy is {sa['num_gt']}, {ngt} ground truths carry that label"
             S[0] += len(rs); S[1] += ngt; S[2] += btp; S[3] += len(rs) - btp
         p, r = _frac_ratio(S[2], S[2] + S[3]), _frac_ratio(S[2], S[1])
         if p is None or r is None:
@@ -557,7 +797,47 @@ def oracle(case, out):
 
 # ----------------------------------------------------------------------------- bookkeeping
 
+def _bucket_branches(case, E, G, out):
+    """which routes of the per-label bucketing a case takes (from the case and the result list only)"""
+    br = []
+    fe = case["fe"]
+    T = {(fe, t) for t in case["targets"]}
+    labs = {_lab(case, "e", s) for s in E} | {_lab(case, "g", s) for s in G}
+    br.append("targets:exclude-a-used-label" if labs - T else "targets:cover-all-used-labels")
+    keys = set()  # non-target keys created so far
+    routes = set()
+    for i, j in out["pairs"]:
+        le = _lab(case, "e", E[i])
+        lg = None if j is None else _lab(case, "g", G[j])
+        if le in T:
+            routes.add("bucket:by-est-label")
+        elif lg is None:
+            routes.add("bucket:dropped(no-target-est,no-gt)")
+        elif lg in T:
+            routes.add("bucket:by-gt-label")
+            if le in keys:
+                routes.add("bucket:by-gt-label-after-nontarget-key-equal-to-est-label")
+        else:
+            routes.add("bucket:nontarget-key")
+            keys.add(lg)
+    return br + sorted(routes)
+
+
 def branches(case, out):
+    if case.get("kind") == "divide":
+        E, G, _ = _div_specs(case)
+        br = ["kind:divide", f"divide:size:{len(E)}", f"divide:targets:{len(case['targets'])}"]
+        if case.get("xg"):
+            br.append("divide:unpaired-gts")
+        if "err" in out:
+            return br + ["err:" + out["err"]]
+        br += _bucket_branches({"fe": case["fam"], "fg": case["fam"], "targets": case["targets"]}, E, G, out)
+        if "summary" in out:
+            v = out["summary"][3]
+            br.append("summary.f1:" + (v if isinstance(v, str) else "num"))
+        else:
+            br.append("divide:buckets-only")
+        return br
     E, G = case["ests"], case["gts"]
     br = []
     if not E or not G:
@@ -601,10 +881,27 @@ def branches(case, out):
     if "summary" in out:
         v = out["summary"][3]
         br.append("summary.f1:" + (v if isinstance(v, str) else "num"))
+        br += ["pair:" + b for b in _bucket_branches(case, E, G, out)]
     return br
 
 
 def shrink(case):
+    if case.get("kind") == "divide":
+        rs = case["rs"]
+        for i in range(len(rs)):
+            c = dict(case); c["rs"] = rs[:i] + rs[i + 1:]
+            yield c
+        for i in range(len(case.get("xg", []))):
+            c = dict(case); c["xg"] = case["xg"][:i] + case["xg"][i + 1:]
+            yield c
+        if len(case["targets"]) > 1:
+            for i in range(len(case["targets"])):
+                c = dict(case); c["targets"] = case["targets"][:i] + case["targets"][i + 1:]
+                yield c
+        if case.get("split"):
+            c = dict(case); c["split"] = 0
+            yield c
+        return
     E, G = case["ests"], case["gts"]
     for i in range(len(E)):
         c = dict(case); c["ests"] = E[:i] + E[i + 1:]
@@ -631,4 +928,6 @@ def search(rng, st, disagreements):
     cases = []
     for _ in range(6000):
         cases.append(_random_case(rng, 6))
+    for _ in range(6000):
+        cases.append(_random_divide(rng, 6))
     return cases
